@@ -180,6 +180,7 @@ def reset_globals(clear_match_caches: bool = True) -> None:
     legacy = sys.modules.get("pyoak.legacy.node")
     if legacy is not None:
         legacy.AwareASTNode._nodes.clear()
+        legacy.TRACE_LOGGING = False
     if clear_match_caches:
         mx = sys.modules.get("pyoak.match.xpath")
         if mx is not None:
@@ -233,10 +234,12 @@ class CaseRunner:
         """Evaluate; raises Violation on failure (after recording it)."""
         lab = Labels()
         reset_globals(self.clear_caches)
+        apply_case_config(data)
         if count:
             self.history.append(data)
         try:
             part.check(data, lab)
+            lab.tag_if(isinstance(data, dict) and bool(data.get("trace")), "trace-logging")
         except Violation as v:
             if v.override is not None:
                 self.no_shrink = True
@@ -319,6 +322,30 @@ def _is_hypothesis_control(e: BaseException) -> bool:
 SHRINK_BUDGET_S = float(os.environ.get("VERIF_SHRINK_S", "45"))
 
 
+def _with_trace_flag(strat: Any) -> Any:
+    """one case in four runs with config.TRACE_LOGGING switched on (dict-shaped cases only): the
+    diagnostic switch must not change any result."""
+    from hypothesis import strategies as st
+
+    def add(t: tuple) -> Any:
+        d, k = t
+        if isinstance(d, dict) and k == 0 and "trace" not in d:
+            return {**d, "trace": True}
+        return d
+
+    return st.tuples(strat, st.integers(0, 3)).map(add)
+
+
+def apply_case_config(data: Any) -> None:
+    if isinstance(data, dict) and data.get("trace"):
+        from pyoak import config
+
+        config.TRACE_LOGGING = True
+        legacy = sys.modules.get("pyoak.legacy.node")
+        if legacy is not None:
+            legacy.TRACE_LOGGING = True
+
+
 def hypothesis_search(runner: CaseRunner, part: Part, n_examples: int) -> None:
     """Seeded Hypothesis run; on failure shrinks within SHRINK_BUDGET_S and returns.
 
@@ -330,7 +357,7 @@ def hypothesis_search(runner: CaseRunner, part: Part, n_examples: int) -> None:
     from hypothesis import HealthCheck, Phase, given, settings
 
     ctx = runner.ctx
-    strat = part.strategy(ctx)
+    strat = _with_trace_flag(part.strategy(ctx))
     state = {"first_fail_at": None}
     part_index = [p.name for p in runner.module.PARTS].index(part.name)
     hseed = (ctx.seed * 1000 + ctx.shard) * 100 + part_index
@@ -464,6 +491,7 @@ def replay_case(module: Any, case: dict) -> tuple[bool, str]:
     datas = case["sequence"] if "sequence" in case else [case["data"]]
     for k, data in enumerate(datas):
         reset_globals(getattr(module, "CLEAR_MATCH_CACHES", True))
+        apply_case_config(data)
         lab = Labels()
         try:
             part.check(data, lab)
